@@ -48,7 +48,7 @@ let () = iter_lines (fun line ->
               | _ -> 0)
            | None -> 0)
         | _ -> 0 in
-      Printf.printf "tj sub=%d sf=%d/%d dims %d %d full=0 set=%s | haz %d\n" sub (iz num) (iz den) sw sh
+      Printf.printf "tj sub=%d sf=%d/%d dims %d %d full=0 set=%s | haz %d over=0\n" sub (iz num) (iz den) sw sh
         (match r with TjErr -> "-1" | _ -> "0 dec=0") hz
     end else begin
       let d = ints (List.nth fs 1) in
@@ -101,7 +101,7 @@ let () = iter_lines (fun line ->
           Buffer.add_string b " | prov";
           List.iter (fun p -> Buffer.add_string b (Printf.sprintf " %d" p)) (List.rev !provs);
           let hz = if !haz5 then 5 else if k.k_ctx then 0 else iz (first_hazard g a_init ops) in
-          Buffer.add_string b (Printf.sprintf " | haz %d" hz);
+          Buffer.add_string b (Printf.sprintf " | haz %d over=%d" hz (if overread g ops then 1 else 0));
           print_endline (Buffer.contents b)
         end
     end
